@@ -7,9 +7,14 @@
     force.  No proofs here.
 
     A list is identified by its ID (IDs are unique over both arrays, as
-    [idGenerator] guarantees; the URL of a list is constant, so the
-    ID-and-URL match of the copy-back loop is a match on the ID and the URL
-    lookup of [filterSetProperties] is a lookup by ID).  Files are a finite
+    [idGenerator] guarantees).  Its URL is a number naming a source; it
+    changes only through [set_props] ([filterSetProperties] finds the entry by
+    its URL and may replace the URL).  No set_url call runs during a refresh
+    pass, and the working copy carries the URL of the entry it was copied
+    from, so the ID-and-URL match of the copy-back loop is a match on the ID.
+    What the reader of list [i] delivers in one pass is the oracle [oc i]
+    (the harness derives it from the source the list's URL names at that
+    moment).  Files are a finite
     map ID -> (generation, content); absent = no file; the generation counts
     the replacements of the file (what the inode shows on the real file).
     The engine holds, per enabled list, the content its file had when the
@@ -22,7 +27,7 @@ From AGH Require Import Base.Run Model.RuleListParser.
 Import ListNotations.
 Local Open Scope N_scope.
 
-Record flist := { f_id : N; f_enabled : bool; f_name : bytes; f_count : N; f_sum : N }.
+Record flist := { f_id : N; f_url : N; f_enabled : bool; f_name : bytes; f_count : N; f_sum : N }.
 
 Definition files := list (N * (N * bytes)).
 Definition fentry (i : N) (fs : files) : option (N * bytes) :=
@@ -80,14 +85,14 @@ Definition ensure_name (id : N) (name title : bytes) : bytes :=
 (** The copy [listsToUpdate] makes: ID, URL, name and checksum; the rule count
     is not copied. *)
 Definition wcopy (l : flist) : flist :=
-  {| f_id := f_id l; f_enabled := false; f_name := f_name l; f_count := 0; f_sum := f_sum l |}.
+  {| f_id := f_id l; f_url := f_url l; f_enabled := false; f_name := f_name l; f_count := 0; f_sum := f_sum l |}.
 
 Section Refresh.
   Variable crc : N -> bytes -> N.
 
   (** What [finalizeUpdate] fills in after the file has been replaced. *)
   Definition filled (l : flist) (st : pstate) : flist :=
-    {| f_id := f_id l; f_enabled := f_enabled l;
+    {| f_id := f_id l; f_url := f_url l; f_enabled := f_enabled l;
        f_name := ensure_name (f_id l) (f_name l) (p_title st);
        f_count := p_count st; f_sum := p_sum st |}.
 
@@ -125,7 +130,7 @@ Section Refresh.
       list: name, rule count and checksum, field by field. *)
   Definition copy_back (u : upd) (f : flist) : flist :=
     if (f_id (u_list u) =? f_id f) && u_updated u then
-      {| f_id := f_id f; f_enabled := f_enabled f;
+      {| f_id := f_id f; f_url := f_url f; f_enabled := f_enabled f;
          f_name := f_name (u_list u);
          f_count := f_count (u_list u);
          f_sum := f_sum (u_list u) |}
@@ -178,52 +183,76 @@ Section Refresh.
       else rebuild bl al fs2 in
     {| r_block := bl; r_allow := al; r_files := fs2; r_engine := eng |}.
 
-  (** ** [filterSetProperties] with an unchanged URL, followed by what
-      [handleFilteringSetURL] does with its result. *)
+  (** ** [filterSetProperties], followed by what [handleFilteringSetURL] does
+      with its result. *)
 
   Definition unload (f : flist) : flist :=
-    {| f_id := f_id f; f_enabled := f_enabled f; f_name := f_name f; f_count := 0; f_sum := 0 |}.
+    {| f_id := f_id f; f_url := f_url f; f_enabled := f_enabled f; f_name := f_name f; f_count := 0; f_sum := 0 |}.
 
-  (** Result for one entry: (should restart, error, the entry afterwards, files). *)
-  Definition set_entry (f : flist) (name : bytes) (en : bool) (o : outcome) (fs : files)
-      : bool * bool * flist * files :=
-    let f1 := {| f_id := f_id f; f_enabled := en; f_name := name; f_count := f_count f; f_sum := f_sum f |} in
-    let restart := negb (Bool.eqb (f_enabled f) en) in
-    if en then
-      if restart then
-        let '(u, fs') := update_one f1 o fs in
-        if u_err u then
-          (* the deferred function restores URL, name, enabled, last update
-             and rule count; the checksum is what [update] left *)
-          (u_updated u, true,
-           {| f_id := f_id f; f_enabled := f_enabled f; f_name := f_name f; f_count := f_count f;
-              f_sum := f_sum (u_list u) |}, fs')
-        else if u_updated u then (true, false, u_list u, fs')
-        else
-          (* the content has the checksum of an unloaded list, i.e. no rules:
-             whatever file is stored is removed and the engine rebuilt *)
-          (true, false, u_list u, fdel (f_id f) fs')
-      else (false, false, f1, fs)
-    else (restart, false, unload f1, fs).
+  (** The checksum of the entry after a failed call: the deferred function
+      restores URL, name, enabled flag, last update and rule count, NOT the
+      checksum, so it is what [unload] / [update] left (zero after a URL
+      change). *)
+  Definition restored_sum (f : flist) (u : upd) : N := f_sum (u_list u).
 
-  Fixpoint set_in (ls : list flist) (i : N) (name : bytes) (en : bool) (o : outcome) (fs : files)
-      : option (bool * bool * list flist * files) :=
+  (** Result for one entry: (should restart, error, the entry afterwards,
+      files).  [nurl] is the URL of the request, [dup] says that some list of
+      either array already has it ([filterExistsLocked]). *)
+  (** The entry as the call wants it: with a new URL, [unload] has forgotten
+      rule count and checksum. *)
+  Definition set_target (f : flist) (name : bytes) (nurl : N) (en : bool) : flist :=
+    if negb (f_url f =? nurl)
+    then {| f_id := f_id f; f_url := nurl; f_enabled := en; f_name := name; f_count := 0; f_sum := 0 |}
+    else {| f_id := f_id f; f_url := nurl; f_enabled := en; f_name := name;
+            f_count := f_count f; f_sum := f_sum f |}.
+
+  Definition set_entry (f : flist) (name : bytes) (nurl : N) (dup : bool) (en : bool) (o : outcome)
+      (fs : files) : bool * bool * flist * files :=
+    let changed := negb (f_url f =? nurl) in
+    if changed && dup then
+      (* errFilterExists; the name is restored *)
+      (false, true, f, fs)
+    else
+      let f1 := set_target f name nurl en in
+      let restart := changed || negb (Bool.eqb (f_enabled f) en) in
+      if en then
+        if restart then
+          let '(u, fs') := update_one f1 o fs in
+          if u_err u then
+            (u_updated u, true,
+             {| f_id := f_id f; f_url := f_url f; f_enabled := f_enabled f; f_name := f_name f;
+                f_count := f_count f; f_sum := restored_sum f u |}, fs')
+          else if u_updated u then (true, false, u_list u, fs')
+          else
+            (* the content has the checksum of an unloaded list, i.e. no rules:
+               whatever file is stored is removed and the engine rebuilt *)
+            (true, false, u_list u, fdel (f_id f) fs')
+        else (false, false, f1, fs)
+      else (restart, false, unload f1, fs).
+
+  (** The entry is found by its URL. *)
+  Fixpoint set_in (ls : list flist) (url : N) (name : bytes) (nurl : N) (dup : bool) (en : bool)
+      (o : outcome) (fs : files) : option (bool * bool * list flist * files) :=
     match ls with
     | [] => None
     | f :: r =>
-        if f_id f =? i then
-          let '(rs, er, f', fs') := set_entry f name en o fs in Some (rs, er, f' :: r, fs')
-        else match set_in r i name en o fs with
+        if f_url f =? url then
+          let '(rs, er, f', fs') := set_entry f name nurl dup en o fs in Some (rs, er, f' :: r, fs')
+        else match set_in r url name nurl dup en o fs with
              | Some (rs, er, r', fs') => Some (rs, er, f :: r', fs')
              | None => None
              end
     end.
 
+  (** [filterExistsLocked] *)
+  Definition url_used (u : N) (st : rstate) : bool :=
+    existsb (fun f => f_url f =? u) (r_block st ++ r_allow st).
+
   (** Result: (restart reported, error reported, state).  The engine is
       rebuilt when there is no error and a restart is required. *)
-  Definition set_props (allow : bool) (i : N) (name : bytes) (en : bool) (o : outcome)
+  Definition set_props (allow : bool) (url : N) (name : bytes) (nurl : N) (en : bool) (o : outcome)
       (st : rstate) : bool * bool * rstate :=
-    match set_in (if allow then r_allow st else r_block st) i name en o (r_files st) with
+    match set_in (if allow then r_allow st else r_block st) url name nurl (url_used nurl st) en o (r_files st) with
     | None => (false, true, st)
     | Some (rs, er, ls', fs') =>
         let bl := if allow then r_block st else ls' in
@@ -231,6 +260,11 @@ Section Refresh.
         let eng := if negb er && rs then rebuild bl al fs' else r_engine st in
         (rs, er, {| r_block := bl; r_allow := al; r_files := fs'; r_engine := eng |})
     end.
+
+  (** [EnableFilters] as any other settings change or a restart calls it. *)
+  Definition rebuild_now (st : rstate) : rstate :=
+    {| r_block := r_block st; r_allow := r_allow st; r_files := r_files st;
+       r_engine := rebuild (r_block st) (r_allow st) (r_files st) |}.
 End Refresh.
 
 (** ** Which rule is in force for a probe name: the harness only writes rules
